@@ -13,14 +13,20 @@
     proof is Proofs/ArenaDeleteProofs.v. *)
 From Coq Require Import List NArith ZArith Bool.
 Import ListNotations.
-Require Import ITree.Model.Common ITree.Model.RBTree ITree.Model.MapModel ITree.Model.ArenaModel.
+Require Import ITree.Model.Common ITree.Model.RBTree ITree.Model.ArenaModel.
 Local Open Scope N_scope.
 
 Definition NIL : N := 0.
 
-Definition with_ent (n: anode) (e: ment) : anode :=
+(** Generic in the entity type, like Model/ArenaModel.v (removal never looks inside an entity). *)
+Section ArenaDelete.
+Variable ent : Type.
+Notation anode := (anode ent).
+Notation astate := (astate ent).
+
+Definition with_ent (n: anode) (e: ent) : anode :=
   {| par := par n; lft := lft n; rgt := rgt n; red := red n; aent := e |}.
-Definition set_ent (s: astate) (i: N) (e: ment) : astate := setn s i (with_ent (nodes s i) e).
+Definition set_ent (s: astate) (i: N) (e: ent) : astate := setn s i (with_ent (nodes s i) e).
 
 (* is_black(index) *)
 Definition is_black_idx (s: astate) (index: N) : bool :=
@@ -173,3 +179,22 @@ Definition arena_delete (fuel: nat) (s: astate) (index: N) : res (astate * N) :=
     | Ret s' => Ret (s', index)
     | Err e => Err e
     end.
+
+End ArenaDelete.
+
+Arguments with_ent {ent} n e.
+Arguments set_ent {ent} s i e.
+Arguments is_black_idx {ent} s index.
+Arguments create_nil_node {ent} s parent.
+Arguments find_left_minimum {ent} fuel s i.
+Arguments get_sibling {ent} s n_index.
+Arguments remove_parents_child {ent} s parent old_child.
+Arguments set_nil_parents_child {ent} s parent old_child.
+Arguments fix_parents_nil_child {ent} s.
+Arguments handle_red_sibling {ent} s n_index s_index.
+Arguments handle_black_sibling {ent} s n_index s_origin.
+Arguments fix_delete_36 {ent} rec s n_index s_index.
+Arguments fix_delete_body {ent} rec s n_index.
+Arguments fix_delete {ent} fuel s n_index.
+Arguments unlink {ent} fuel s delete_index nd_parent nd_left nd_right nd_red.
+Arguments arena_delete {ent} fuel s index.
